@@ -188,8 +188,9 @@ func readCurrentRegex(filePath string, ruleId string, chainOffset uint8) string 
 
 	lines := bytes.Split(contents, []byte("\n"))
 
-	// the id action of the rule, not a mention of it in a comment
-	idRegex := regexp.MustCompile(fmt.Sprintf("^[^#]*id:%s", ruleId))
+	// the id action at the start of its line, not a mention of the id in a comment
+	// or in the regular expression of the rule
+	idRegex := regexp.MustCompile(fmt.Sprintf(`^\s*"?id:%s\b`, ruleId))
 	index := 0
 	var line []byte
 	foundRule := false
